@@ -61,7 +61,7 @@ CHECKS["C09"] = {
     "technique": "bounded-exhaustive exploration of the real load/prepare/find/store/decode API over a definition grammar with arrival-history enumeration for chained messages",
     "rule": "definition = shape x field layout; case = definition x value choice (2 per field) [x arrival permutation x "
             "gap pattern]. Inputs are valid by construction, so prepareMaster must succeed for every part; checked: "
-            "header QQ ZZ PB SB, NN == following bytes, NN <= MAX_POS, ID and master data bytes, "
+            "header QQ ZZ PB SB (ZZ = own destination, or the destination given to prepareMaster), NN == following bytes, NN <= MAX_POS, ID and master data bytes, "
             "find(telegram) == that definition, decode(store(telegram, answer)) == supplied and received values "
             "(compared as name=value multiset); chained: every part carries its ID and its defined number of data "
             "bytes, the parts in order reproduce the encoded value, and after all parts arrived within a small gap "
